@@ -20,6 +20,20 @@ that guard the statement is false of the code (`C17_packaging_invariant_false`, 
 C17-gcno-same-stem-last-wins). The sniffing theorems (`C17_info_signature`, `C17_xml_signature`)
 are full strength: an `.xml` is used iff the JaCoCo DTD marker occurs in its first 256 bytes,
 whatever its length and encoding (after fix 82d1c8b).
+
+The path mapping (`linked-files-map.json`) is part of the outcome: `OutcomeEquivM` = `OutcomeEquiv`
+plus "whatever the two runs may return as mapping is the same" (`mappingMay`: `get_mapping` returns
+the first entry of a hash map, i.e. any candidate). `C17_packaging_invariant_mapping_partial` /
+`C17_arg_order_mapping_partial`: invariant when at most one distinct map content exists
+(`MapConsistent`); without that guard false (`C17_packaging_invariant_mapping_false`: two archives
+each holding a different `linked-files-map.json` – the argument order decides; finding
+C17-two-path-mappings-first-wins).
+
+Argument classification (`classifyArg`, `RawArg`, `runRaw`): `Arg` is an argument after
+classification; `C17_arg_classification` says which argument string with which file-system facts
+is taken for a zip, a directory, a plain file, or makes `producer()` panic (and with which
+message); `C17_raw_run` connects `runRaw` to `run`, so every theorem above applies to raw
+arguments that classify without panic.
 -/
 import GrcovModel.Lemmas.Producer
 namespace Grcov.Props.C17
@@ -220,6 +234,126 @@ theorem C17_mapping (o : Opts) (args : List Arg) (hw : WF args)
   obtain ⟨_, _, _, rfl⟩ := run_ok_inv hrun
   exact ⟨cands_nil_iff o args hw, cands_sub o args hw,
     fun c₀ h c hc => h c (cands_sub o args hw c hc)⟩
+
+/-! ### the path mapping as part of the outcome -/
+
+/-- Packaging invariance including the path mapping: under the guards of
+`C17_packaging_invariant_partial` and with at most one distinct `linked-files-map.json` content
+among the artifacts, the two layouts deliver the same items AND whatever `get_mapping` may pick in
+either run is the same (nothing when there is no map, that one content otherwise). -/
+theorem C17_packaging_invariant_mapping_partial (o : Opts) (args₁ args₂ : List Arg)
+    (w₁ : WF args₁) (w₂ : WF args₂)
+    (b₁ : args₁.any Arg.bad = false) (b₂ : args₂.any Arg.bad = false)
+    (p : ((arts o.isLlvm args₁).filter Art.relevant).Perm
+          ((arts o.isLlvm args₂).filter Art.relevant))
+    (hc : GcnoConsistent (arts o.isLlvm args₁)) (hm : MapConsistent (arts o.isLlvm args₁)) :
+    OutcomeEquivM (run o args₁) (run o args₂) :=
+  run_equivM_of_arts o args₁ args₂ w₁ w₂ (by rw [b₁, b₂]) p hc hm
+
+/-- … in particular for every permutation of the arguments. -/
+theorem C17_arg_order_mapping_partial (o : Opts) (args₁ args₂ : List Arg) (p : args₁.Perm args₂)
+    (w : WF args₁) (hc : GcnoConsistent (arts o.isLlvm args₁))
+    (hm : MapConsistent (arts o.isLlvm args₁)) :
+    OutcomeEquivM (run o args₁) (run o args₂) :=
+  run_equivM_of_arts o args₁ args₂ w (WF_perm p w) p.any_eq ((arts_perm _ p).filter _) hc hm
+
+/-- With at most one distinct map content the returned mapping is a function of the artifacts:
+`None` iff there is no `linked-files-map.json`, else that content. -/
+theorem C17_mapping_determined (o : Opts) (args : List Arg) (hw : WF args)
+    (items : List Item) (maps : List Nat) (hrun : run o args = .ok items maps)
+    (hm : MapConsistent (arts o.isLlvm args)) (r : Option Nat) (hr : mappingMay maps r) :
+    r = (cidsOf .linkedMap (arts o.isLlvm args)).head? := by
+  obtain ⟨_, _, _, rfl⟩ := run_ok_inv hrun
+  exact mapping_determined o args hw hm r hr
+
+/-- Without the `MapConsistent` guard the statement is false of the code: two zips, each with its
+own `linked-files-map.json` (same entry name: the later archive replaces the earlier one in the
+hash map), an `.info` beside – the items agree, the mapping is the LAST argument's. -/
+theorem C17_packaging_invariant_mapping_false :
+    ∃ (o : Opts) (args₁ args₂ : List Arg), WF args₁ ∧ WF args₂ ∧ args₁.Perm args₂ ∧
+      GcnoConsistent (arts o.isLlvm args₁) ∧
+      OutcomeEquiv (run o args₁) (run o args₂) ∧ ¬ OutcomeEquivM (run o args₁) (run o args₂) := by
+  let i : File := ⟨[114, 46, 105, 110, 102, 111], [84, 78, 58], 31⟩
+  let m1 : File := ⟨bLfm, [123, 125], 41⟩
+  let m2 : File := ⟨bLfm, [123, 125], 42⟩
+  have h1 : run ⟨false, false⟩ [.zip 0 [i, m1], .zip 1 [m2]]
+      = .ok [.content .info 31 (.arch (.arg 0))] [42] := by decide
+  have h2 : run ⟨false, false⟩ [.zip 1 [m2], .zip 0 [i, m1]]
+      = .ok [.content .info 31 (.arch (.arg 0))] [41] := by decide
+  refine ⟨⟨false, false⟩, [.zip 0 [i, m1], .zip 1 [m2]], [.zip 1 [m2], .zip 0 [i, m1]], ?_, ?_,
+    List.Perm.swap _ _ _, ?_, ?_, ?_⟩
+  · unfold WF; decide
+  · unfold WF; decide
+  · unfold GcnoConsistent; decide
+  · rw [h1, h2]; simp [OutcomeEquiv]
+  · rw [h1, h2]
+    rintro ⟨_, h⟩
+    have := h (some 42) (some 41) (by simp [mappingMay]) (by simp [mappingMay])
+    cases this
+
+/-- Two maps under DIFFERENT entry names are both candidates of one run: which one `get_mapping`
+returns is the hash map's choice (not determined by the layout, let alone by the artifacts). -/
+theorem C17_two_mappings_undetermined :
+    ∃ (o : Opts) (args : List Arg) (items : List Item), WF args ∧
+      run o args = .ok items [41, 42] ∧ mappingMay [41, 42] (some 41) ∧ mappingMay [41, 42] (some 42) := by
+  refine ⟨⟨false, false⟩,
+    [.dir 0 [⟨[114, 46, 105, 110, 102, 111], [84, 78, 58], 31⟩, ⟨bLfm, [123, 125], 41⟩,
+      ⟨[115, 47] ++ bLfm, [123, 125], 42⟩]], [.content .info 31 (.arch (.arg 0))], ?_, ?_, ?_, ?_⟩
+  · unfold WF; decide
+  · decide
+  · simp [mappingMay]
+  · simp [mappingMay]
+
+/-! ### classification of the command-line arguments -/
+
+/-- Which argument is taken for what (producer.rs 497-533): a string that ends in `.zip` – byte
+suffix of the whole argument, case sensitive – is opened as a zip archive whatever the file system
+says (a directory of that name included); otherwise a directory is walked; otherwise the
+extension of the path decides: `info json xml profraw profdata` ⇒ plain file, another extension ⇒
+panic "it isn't a .info, a .json or a .xml file", none ⇒ panic "it isn't a directory, …". -/
+theorem C17_arg_classification (path full : Name) (isDir : Bool) :
+    (endsWith path bDotZip = true → classifyArg path full isDir = .zip) ∧
+    (endsWith path bDotZip = false → isDir = true → classifyArg path full isDir = .dir) ∧
+    (endsWith path bDotZip = false → isDir = false → classifyArg path full isDir = extClass full) :=
+  ⟨classifyArg_zip path full isDir,
+   fun h hd => by subst hd; exact classifyArg_dir path full h,
+   fun h hd => by subst hd; exact classifyArg_file path full h⟩
+
+/-- Closed instances: a directory named `x.zip` is opened as a zip (and `producer()` panics when
+that fails); a zip named `x.ZIP` or `x.jar` is not an archive but a plain file with an inadmissible
+extension; `x.info` is a plain file; `x.txt` and `README` panic with the two different messages;
+a directory given as `x.zip/` (trailing slash) is a directory. -/
+theorem C17_arg_classification_witnesses :
+    classifyArg [120, 46, 122, 105, 112] [47, 120, 46, 122, 105, 112] true = .zip ∧
+    classifyArg [120, 46, 90, 73, 80] [47, 120, 46, 90, 73, 80] false = .panicBadExt ∧
+    classifyArg [120, 46, 106, 97, 114] [47, 120, 46, 106, 97, 114] false = .panicBadExt ∧
+    classifyArg [120, 46, 105, 110, 102, 111] [47, 120, 46, 105, 110, 102, 111] false = .plain ∧
+    classifyArg [120, 46, 116, 120, 116] [47, 120, 46, 116, 120, 116] false = .panicBadExt ∧
+    classifyArg [82, 69, 65, 68, 77, 69] [47, 82, 69, 65, 68, 77, 69] false = .panicNoExt ∧
+    classifyArg [120, 46, 122, 105, 112, 47] [47, 120, 46, 122, 105, 112, 47] true = .dir ∧
+    classifyArg [46, 105, 110, 102, 111] [47, 46, 105, 110, 102, 111] false = .panicNoExt := by
+  decide
+
+/-- From raw arguments to `run`: when no argument panics, `producer()` is `run` on the classified
+arguments, none of which is inadmissible – so exactness, packaging invariance and the rest apply;
+when one panics nothing is explored and nothing is sent. -/
+theorem C17_raw_run (o : Opts) (raws : List RawArg) (hs : ∀ r ∈ raws, r.self.path = r.full) :
+    (∀ args, classifyAll raws = .ok args →
+      runRaw o raws = .ok (run o args) ∧ args.any Arg.bad = false) ∧
+    (∀ e, classifyAll raws = .error e → runRaw o raws = .error e) := by
+  constructor
+  · intro args h
+    exact ⟨by simp [runRaw, h], classifyAll_not_bad hs h⟩
+  · intro e h
+    simp [runRaw, h]
+
+/-- a directory called `d.zip` that is not a zip file: the run panics before anything is read,
+although the directory holds a usable `.info` -/
+example : runRaw ⟨false, false⟩
+    [⟨0, [100, 46, 122, 105, 112], [47, 100, 46, 122, 105, 112], true, false,
+      [⟨[114, 46, 105, 110, 102, 111], [84, 78, 58, 116], 31⟩],
+      ⟨[47, 100, 46, 122, 105, 112], [], 0⟩⟩]
+    = .error .zipOpen := by rfl
 
 /-! ### non-vacuity: a concrete multiset in two packagings
 
